@@ -77,7 +77,7 @@ def main():
             rc, out, dt = sh("bash %s %s" % (demosh, repo), cwd=repo, env=env, timeout=1800)
             r["demo_passes_without_change"] = rc == 0
             sh("git apply %s" % patch, cwd=repo)
-        for tier in ["quick", "thorough"]:
+        for tier in (["quick"] if os.environ.get("CAMPAIGN_NO_THOROUGH") else ["quick", "thorough"]):
             rc, out, dt = sh("./check %s %s" % (prop, tier), cwd=verif, env=env, timeout=3600)
             viol = [l for l in out.splitlines() if l.startswith("VIOLATION")]
             r[tier] = {"rc": rc, "violations_printed": len(viol), "first": (viol[0][:300] if viol else ""), "wall_s": round(dt, 1)}
